@@ -341,3 +341,36 @@ claim("C02", "Lean 4 theorems (Mathlib HasDerivAt/HasFDerivAt of the generated f
 
 for _p in []:
     NOT_YET[_p] = "not yet built in this round: theorems and correspondence under construction (see DESIGN.md §8); never claimed on the strength of the harness alone"
+
+# ---- session 3: method bodies / constructors that were hand models are now REGENERATED and proved equal to those models (DESIGN.md §5, notes/g14–g19.md)
+_S3 = {
+    "C01": "SESSION 3: the four methods (+ _flat_params_to_transformer, inv_scan_fn with its lax.scan, the __init__ guards) of Coupling and MaskedAutoregressive (Gen/NetGen.lean), "
+           "transform / inverse of BlockAutoregressiveNetwork and block_autoregressive_linear (Gen/BnafGen.lean), TriangularAffine's constructor and methods (Gen/TriangularGen.lean), "
+           "Permute (Gen/PermGen.lean) and Scan / Vmap (Gen/JaxTransforms.lean) are regenerated from the source on every run and PROVED equal to the hand models for every input, size "
+           "and parameter value (gen_coupling_eq_model, gen_maf_eq_model, gen_bnaf_transform_eq_model, gen_triangular_eq_model, gen_permute_eq_model, gen_scan_eq_chain, gen_vmap_eq_model), "
+           "and the lawfulness theorems are restated on the generated definitions (gen_coupling_lawful, gen_maf_lawful, gen_maf_inverse_correct, gen_bnaf_injective, gen_triangular_init_lawful, "
+           "gen_permute_lawful, gen_scan_lawful, gen_vmap_lawful). Still hand-written: the worlds giving the library calls their meaning (Model/NetWorld, BnafWorld, JaxTrWorld, TriPrims, PermPrims), "
+           "eqx.nn.MLP.__call__, get_ravelled_pytree_constructor, argsort, solve_triangular.",
+    "C02": "SESSION 3: the log-det theorems are restated on the regenerated Coupling / MaskedAutoregressive / BlockAutoregressiveNetwork / TriangularAffine / Scan / Vmap methods "
+           "(gen_coupling_logdet, gen_maf_logdet, gen_coupling_ld_antisym, gen_maf_ld_antisym, gen_bnaf_logdet, gen_bnaf_logdet_constructed, gen_bnaf_inverse_logdet, gen_triangular_ld, "
+           "gen_triangular_det, gen_triangular_ld_antisym, gen_scan_ld, gen_scan_ld_antisym, gen_vmap_ld): the value the GENERATED transform_and_log_det returns is log|det J| of the generated forward map.",
+    "C03": "SESSION 3: Transformed(base, generated Scan) returns with every sample the log-prob log_prob gives it (gen_scan_transformed_consistent); Flows.scanOf, the Scan of the generated factories, is the generated Scan.",
+    "C05": "SESSION 3: the constructors (__init__ of Affine, Loc, Scale, _StandardStudentT, the nine families, MultivariateNormal, VmapMixture) and every accessor property are regenerated on every run "
+           "(py2meth.py, sheet targets_families.py -> Gen/FamiliesGen.lean) and proved equal to the hand wiring of Model/Families.lean for every broadcastable pair / triple of parameter shapes "
+           "(gen_<family>_eq_model), with the textbook log-density theorems and accessor round trips restated on the generated constructor + generated _log_prob (gen_<family>_log_prob, gen_<family>_accessor, "
+           "gen_mixture_log_prob); a swapped argument order, Scale(rate), an un-subtracted minval or an accessor returning the raw leaf breaks a named proof or is refused.",
+    "C07": "SESSION 3: the documented-function theorems for TriangularAffine (incl. its constructor) and Permute are restated on the regenerated definitions (gen_triangular_doc, gen_triangular_ctor_doc, "
+           "gen_triangular_init_doc, gen_triangular_inverse_doc, gen_permute_eq_model, gen_permute_doc, gen_permute_inverse, gen_permute_ctor_accepts_iff).",
+    "C09": "SESSION 3: the dependency theorems are restated on the regenerated Coupling / MaskedAutoregressive / BlockAutoregressiveNetwork methods (gen_coupling_structure, gen_maf_autoregressive, "
+           "gen_bnaf_dependency, gen_bnaf_jacobian) and unwrap of the generated block_autoregressive_linear wrapper nest is proved to be the model's masked, weight-normalised matrix (gen_block_linear_eq_model).",
+    "C11": "SESSION 3: on the regenerated constructors: every entry of the unwrapped scale / df / triangular diagonal is positive for every accepted argument and every raw leaf stored afterwards "
+           "(gen_affine_scale_pos, gen_scale_scale_pos, gen_df_pos, gen_tri_diag_pos), generated Affine.__init__ = the hand constructor entry by entry (gen_affine_ctor_eq), TriangularAffine.__init__ accepts "
+           "exactly rank-2 square matrices with loc of size n or 1 (gen_tri_ctor_accepts_iff), Permute rejects exactly non-permutations (gen_reject_iff_not_permutation).",
+    "C13": "SESSION 3: the WHOLE _unwrap_check_and_cast closure (condition=None default, both inner checks, evaluation order) and the __init_subclass__ loop are regenerated in exception-valued form "
+           "(py2wrap.py -> Gen/WrapperGen.lean) and proved equal to the hand model for every method, shape, cond_shape, x and condition (gen_wrapper_eq_model, gen_check_accepts_iff, gen_wrapper_error_class, "
+           "gen_init_subclass_spec, gen_init_subclass_table); the scalar-transformer guards of Coupling / MaskedAutoregressive.__init__ and TriangularAffine.__init__ are regenerated too (C01 gen_coupling_init_spec, "
+           "gen_maf_init_spec; C11 gen_tri_ctor_accepts_iff). The search oracle has a NumPy-referenced constructor grid over equal and different ranks.",
+}
+for _k, _v in _S3.items():
+    _t = CLAIMED[_k]
+    CLAIMED[_k] = (_t[0], _t[1] + " " + _v, _t[2], _t[3])
